@@ -12,6 +12,7 @@ import (
 	"net/netip"
 	"sort"
 	"strings"
+	"sync"
 	"time"
 
 	"github.com/miekg/dns"
@@ -266,6 +267,31 @@ func exec(op string) vlib.Res {
 		ref.observe(refQ(k), cache.VerifC13QuestionHash(k))
 		h := fc.RecordQuestion(k, provOf(a[6]), cache.VerifC13Witness(vlib.AtoU64(a[7])))
 		return vlib.Res{Impl: fmtHit(h), Oracle: ref.recorded(refQ(k), h, "recq"), Tags: "nt"}
+	case "race": // <q key 5> <now> <n>: n concurrent recorders of one failure
+		k := parseQ(a)
+		setNow(a[5])
+		n := vlib.Atoi(a[6])
+		ref.observe(refQ(k), cache.VerifC13QuestionHash(k))
+		hits := make([]cache.FailureHit, n)
+		var wg sync.WaitGroup
+		start := make(chan struct{})
+		for i := 0; i < n; i++ {
+			wg.Add(1)
+			go func(i int) {
+				defer wg.Done()
+				<-start
+				hits[i] = fc.RecordQuestion(k, provOf("3"), nil)
+			}(i)
+		}
+		close(start)
+		wg.Wait()
+		or := ref.recorded(refQ(k), hits[0], "race")
+		for _, h := range hits[1:] {
+			if h.Streak != hits[0].Streak || !h.RetryAfter.Equal(hits[0].RetryAfter) {
+				or = fmt.Sprintf("FAIL sig=race/concurrent-recorders-advanced-more-than-once %d/%d vs %d/%d", hits[0].Streak, hits[0].RetryAfter.UnixNano(), h.Streak, h.RetryAfter.UnixNano())
+			}
+		}
+		return vlib.Res{Impl: fmtHit(hits[0]), Oracle: or, Tags: "nt"}
 	case "recz": // <zone> <class> <now> <prov>
 		k := cache.FailureZoneKey{Zone: nameOf(a[0]), Qclass: uint16(vlib.Atoi(a[1]))}
 		setNow(a[2])
@@ -350,6 +376,9 @@ func exec(op string) vlib.Res {
 		ref.observe(refZ(cache.FailureZoneKey{Zone: zone, Qclass: qc}), cache.VerifC13ZoneHash(cache.FailureZoneKey{Zone: zone, Qclass: qc}))
 		st.RecordZoneFailure(dns.Question{Name: "x." + zone, Qtype: 1, Qclass: qc}, zone)
 		or := ref.storeWrite(before, "srecz")
+		if zone == "" && fc.Len() != before {
+			or = "FAIL sig=store/srecz/empty-zone-recorded"
+		}
 		if enabled && zone != "" {
 			// read the recorded state back through its own name
 			h, ok := fc.Lookup(cache.FailureQuestionKey{Question: dns.Question{Name: zone, Qtype: 1, Qclass: qc}})
@@ -435,6 +464,8 @@ func exec(op string) vlib.Res {
 		return vlib.Res{Impl: fmt.Sprintf("len=%d", fc.Len()), Oracle: or}
 	case "sset": // <name> <type> <class> <keycd> <scope> <class: useful|servfail|other> <now>
 		return execSet(a)
+	case "serve": // <name> <type> <class> <cd> <opt t/f> <now> <upstream outcome>
+		return execServe(a)
 	case "write": // <ctxflags> <mark> <q key 5> <now> <wit> <useful|nxdomain|servfail|refused>
 		return execWrite(a)
 	}
@@ -564,6 +595,20 @@ func execRetryKey(k cache.FailureQuestionKey, retry func(cache.FailureQuestionKe
 		}
 	}
 	if impl == "q" {
+		// closest-zone history must take precedence, or every name below a
+		// failed zone elects its own probe
+		if anc, good := ancestorsRaw(k.Question.Name); good {
+			for _, e := range cache.VerifC13Entries(fc) {
+				if e.Kind != cache.FailureKindZone || e.Zone.Qclass != k.Question.Qclass || e.Hash != cache.VerifC13ZoneHash(e.Zone) {
+					continue
+				}
+				for _, z := range anc {
+					if zc, ok2 := canonRaw(e.Zone.Zone); ok2 && zc == z {
+						or = "FAIL sig=" + entry + "/exact-key-although-zone-history-on-path zone=" + hexName(z)
+					}
+				}
+			}
+		}
 		up := k
 		up.Question.Name = strings.ToUpper(k.Question.Name)
 		if k2, ok2 := retry(up); !ok2 || k2 != key {
@@ -740,6 +785,101 @@ func execWrite(a []string) vlib.Res {
 	}
 	_ = err // transport packing of odd names is not this property's business
 	return vlib.Res{Impl: fmt.Sprintf("len=%d %s", fc.Len(), fmtLookup(h, ok)), Oracle: or, Tags: "nt"}
+}
+
+// upstream is the scripted handler behind the cache: it stands for the
+// resolver and counts how often the cache let a request through.
+type upstream struct {
+	calls   int
+	k       cache.FailureQuestionKey
+	outcome string
+}
+
+func (u *upstream) Name() string { return "upstream" }
+func (u *upstream) ServeDNS(ctx context.Context, ch *middleware.Chain) {
+	u.calls++
+	class := u.outcome
+	if strings.HasPrefix(class, "local:") {
+		class = "servfail"
+	}
+	res := buildResponse(u.k, class)
+	if strings.HasPrefix(u.outcome, "local:") {
+		ctx, _ = middleware.EnsureResolutionAttemptGuard(ctx)
+		middleware.MarkRequestLocalFailureResponse(ctx, res, causeErr(u.outcome[6:]))
+	}
+	_ = ch.Writer.WriteMsg(res)
+	ch.Cancel()
+}
+
+// fail serve <name> <type> <class> <cd> <opt> <now> <servfail|refused|nxdomain|useful|local:<cause>>
+// One client request through the real Cache.ServeDNS with a scripted upstream.
+func execServe(a []string) vlib.Res {
+	k := parseQ(append(append([]string{}, a[:4]...), "-"))
+	setNow(a[5])
+	up := &upstream{k: k, outcome: a[6]}
+	ch := middleware.NewChain([]middleware.Handler{full, up})
+	w := mock.NewWriter("udp", "192.0.2.77:4242")
+	req := newReq(k)
+	if a[4] == "t" {
+		req.SetEdns0(1232, true)
+		o := req.IsEdns0()
+		o.Option = append(o.Option, &dns.EDNS0_COOKIE{Code: dns.EDNS0COOKIE, Cookie: "0102030405060708"})
+	}
+	cache.VerifC13ForgetAnswers(full, k.Question) // an earlier sset/write may have cached an answer
+	pre, preOK := fc.Lookup(k)
+	before := snapshot()
+	ref.observe(refQ(k), cache.VerifC13QuestionHash(k))
+	ch.Reset(w, req)
+	ch.Next(context.Background())
+	cache.VerifC13ForgetAnswers(full, k.Question)
+	reply := w.Msg()
+	or := "ok"
+	var impl string
+	h, ok := fc.Lookup(k)
+	switch {
+	case reply == nil:
+		impl = "noreply"
+		or = "FAIL sig=serve/no-reply"
+	case up.calls == 0:
+		impl = "hit upstream=0 " + fmtResp(reply)
+		or = judgeResponse(req, reply, "serve")
+		if !preOK {
+			or = "FAIL sig=serve/answered-without-upstream-although-nothing-is-suppressed"
+		} else {
+			or = worst(or, ref.judgeLookup(k, pre, preOK, "serve"))
+		}
+		if !enabled {
+			or = "FAIL sig=serve/disabled-served-from-failure-cache"
+		}
+		if snapshot() != before {
+			or = worst(or, "FAIL sig=serve/hit-changed-state")
+		}
+	default:
+		impl = fmt.Sprintf("miss upstream=%d rcode=%d len=%d %s", up.calls, reply.Rcode, fc.Len(), fmtLookup(h, ok))
+		if preOK && enabled {
+			or = "FAIL sig=serve/active-failure-went-upstream"
+		}
+		if !enabled && snapshot() != before {
+			or = "FAIL sig=serve/disabled-but-state-changed"
+		}
+		if enabled {
+			switch {
+			case strings.HasPrefix(a[6], "local:") && localCause(a[6][6:]):
+				if snapshot() != before {
+					or = "FAIL sig=serve/request-local-failure-became-shared-state cause=" + a[6][6:]
+				}
+			case a[6] == "servfail" || a[6] == "refused" || strings.HasPrefix(a[6], "local:"):
+				if ok && h.Kind == cache.FailureKindQuestion {
+					or = worst(or, ref.recorded(refQ(k), h, "serve"))
+				}
+			default:
+				ref.resetQ(k)
+				ref.resetMatching(k)
+				or = worst(or, ref.afterSuccess(k, "serve"))
+			}
+		}
+	}
+	return vlib.Res{Impl: impl, Oracle: or, Tags: "nt"}
 }
 
 // snapshot is a canonical rendering of every retained state.
